@@ -18,10 +18,12 @@ def AND(
 
     # Use delayed evaluation to minimize th amount of values to evaluate.
     for logical in logicals:
-        val = logical()
-        for item in xl.flatten([val]):
+        items = list(xl.flatten([logical()]))
+        # An error anywhere in an evaluated argument is the result.
+        for item in items:
             if isinstance(item, xlerrors.ExcelError):
                 return item
+        for item in items:
             if func_xltypes.Blank.is_blank(item):
                 continue
             if not bool(item):
@@ -56,10 +58,12 @@ def OR(
 
     # Use delayed evaluation to minimize th amount of valaues to evaluate.
     for logical in logicals:
-        val = logical()
-        for item in xl.flatten([val]):
+        items = list(xl.flatten([logical()]))
+        # An error anywhere in an evaluated argument is the result.
+        for item in items:
             if isinstance(item, xlerrors.ExcelError):
                 return item
+        for item in items:
             if func_xltypes.Blank.is_blank(item):
                 continue
             if bool(item):
